@@ -341,8 +341,10 @@ def h_where(I, args, kw, st, n):
     if is_opaque(t): return t
     if cb is None:
         T = as_arr(t)
-        return Arr(T.axes, pv_apply(lambda xy: pick(c, xy[0], xy[1]) if isinstance(xy, tuple) else xy, T.body))
-    r = _ew2(lambda cv, xy: pick(cv, xy[0], xy[1]) if isinstance(xy, tuple) else Opaque("where"), cb, t, st)
+        r = Arr(T.axes, pv_apply(lambda xy: pick(c, xy[0], xy[1]) if isinstance(xy, tuple) else xy, T.body))
+    else:
+        r = _ew2(lambda cv, xy: pick(cv, xy[0], xy[1]) if isinstance(xy, tuple) else Opaque("where"), cb, t, st)
+    if isinstance(r, Arr) and not r.axes: return r.body       # 0-d result: the scalar itself
     return r
 
 
@@ -672,6 +674,24 @@ _reg("numpy.sum", _reduce(False))
 _reg("builtins.sum", h_builtin_sum)
 _reg("numpy.nan_to_num", h_nan_to_num)
 _reg("numpy.divide numpy.true_divide", h_divide)
+def h_isclose(I, a, k, st, n):
+    """np.isclose(a, b, rtol=1e-05, atol=1e-08): |a-b| <= atol + rtol*|b| elementwise."""
+    rtol = to_x(k.get("rtol", a[2] if len(a) > 2 else X.const(Fr(1, 100000))))
+    atol = to_x(k.get("atol", a[3] if len(a) > 3 else X.const(Fr(1, 100000000))))
+    if rtol is None or atol is None: return Opaque("isclose tolerances")
+    text = " ".join(ast.unparse(n).split())[:120]
+
+    def f(x, y):
+        xx, yy = to_x(x), to_x(y)
+        if xx is None or yy is None: return Opaque("isclose of non-numeric")
+        try:
+            lhs = (xx - yy).abs(); rhs = atol + rtol * yy.abs()
+        except Unknown as ex: return Opaque(str(ex))
+        return lm.scal_compare(ast.LtE(), lhs, rhs, text)
+    return _ew2(f, a[0], a[1], st)
+
+
+_reg("numpy.isclose", h_isclose)
 _reg("numpy.where", h_where)
 _reg("numpy.select", h_select)
 _reg("numpy.clip", h_clip)
